@@ -235,13 +235,18 @@ func init() {
 				x.tb.Eq(ch, x.tb.BV(8, ':')), x.tb.Eq(ch, x.tb.BV(8, '.')))
 			nec = x.tb.And(nec, x.tb.Implies(x.tb.ULt(x.i64(i), arg.Len), okc))
 		}
-		// further necessary conditions of the real parser: dotted (IPv4) text has at least 7 bytes
-		// ("1.1.1.1"); text shorter than 7 bytes can only be IPv6 with a "::" in it; three colons
-		// in a row never parse
-		hasDot, hasDbl, hasTriple := x.tb.False, x.tb.False, x.tb.False
+		// further necessary conditions of the real parser (RFC 4291 text forms): dots come as the
+		// three dots of one dotted quad; text without "::" needs seven colons (>= 15 bytes) or, with
+		// a dotted quad at its end, six (>= 19 bytes), or no colon at all (pure IPv4, >= 7 bytes);
+		// three colons in a row never parse
+		hasDot, hasColon, hasDbl, hasTriple := x.tb.False, x.tb.False, x.tb.False, x.tb.False
+		dots := x.tb.BV(8, 0)
 		for i := 0; i < x.maxLen(arg); i++ {
 			in := x.tb.ULt(x.i64(i), arg.Len)
-			hasDot = x.tb.Or(hasDot, x.tb.And(in, x.tb.Eq(arg.B[i], x.tb.BV(8, '.'))))
+			isDot := x.tb.And(in, x.tb.Eq(arg.B[i], x.tb.BV(8, '.')))
+			hasDot = x.tb.Or(hasDot, isDot)
+			dots = x.tb.Add(dots, x.tb.Ite(isDot, x.tb.BV(8, 1), x.tb.BV(8, 0)))
+			hasColon = x.tb.Or(hasColon, x.tb.And(in, x.tb.Eq(arg.B[i], x.tb.BV(8, ':'))))
 			if i+1 < x.maxLen(arg) {
 				in2 := x.tb.ULt(x.i64(i+1), arg.Len)
 				dbl := x.tb.And(in2, x.tb.And(x.tb.Eq(arg.B[i], x.tb.BV(8, ':')), x.tb.Eq(arg.B[i+1], x.tb.BV(8, ':'))))
@@ -252,8 +257,12 @@ func init() {
 				}
 			}
 		}
-		short := x.tb.ULt(arg.Len, x.tb.Int64(7))
-		nec = x.tb.And(nec, x.tb.Implies(short, x.tb.And(hasDbl, x.tb.Not(hasDot))))
+		if x.maxLen(arg) < 250 {
+			nec = x.tb.And(nec, x.tb.Implies(hasDot, x.tb.And(x.tb.Eq(dots, x.tb.BV(8, 3)), x.tb.ULe(x.tb.Int64(7), arg.Len))))
+		}
+		nec = x.tb.And(nec, x.tb.Implies(x.tb.And(hasColon, x.tb.Not(hasDbl)), x.tb.ULe(x.tb.Int64(15), arg.Len)))
+		nec = x.tb.And(nec, x.tb.Implies(x.tb.And(hasColon, hasDot), x.tb.ULe(x.tb.Int64(9), arg.Len)))
+		nec = x.tb.And(nec, x.tb.Or(hasColon, hasDot))
 		nec = x.tb.And(nec, x.tb.Not(hasTriple))
 		b = x.tb.And(b, nec)
 		// non-nil result: a 16-byte slice of unconstrained content
@@ -311,6 +320,25 @@ func (x *Exec) readAllFrom(s *State, v Value) (*StrVal, bool) {
 		// everything has been consumed
 		x.store(s, fa.(*PtrVal), &SliceVal{Ptr: x.nilPtr(), Len: x.i64(0), Cap: x.i64(0)})
 		return out, true
+	case name == "*io.LimitedReader":
+		// at most N bytes of what the underlying reader still has
+		p := a.V.(*PtrVal)
+		ra, _ := x.fieldAddr(s, p, 0)
+		rv, _ := x.load(s, ra.(*PtrVal), nil)
+		na, _ := x.fieldAddr(s, p, 1)
+		nv, _ := x.load(s, na.(*PtrVal), nil)
+		all, ok := x.readAllFrom(s, rv)
+		if !ok {
+			return nil, false
+		}
+		n := nv.(*Term)
+		neg := x.tb.SLt(n, x.tb.Int64(0))
+		take := x.tb.Ite(neg, x.tb.Int64(0), x.tb.Ite(x.tb.ULt(n, all.Len), n, all.Len))
+		x.store(s, na.(*PtrVal), x.tb.Sub(n, take))
+		if all.LenOnly {
+			return &StrVal{B: all.B, Len: take, LenOnly: true}, true
+		}
+		return x.strSlice(all, x.tb.Int64(0), take), true
 	case name == "*strings.Reader":
 		p := a.V.(*PtrVal)
 		fa, _ := x.fieldAddr(s, p, 0)
